@@ -24,7 +24,7 @@ TIERS = {
     "quick": {"runs": 6000, "max_wall": 240, "minimise_s": 20, "chunk": 100},
     "thorough": {"runs": 250000, "max_wall": 3000, "minimise_s": 60, "chunk": 500},
 }
-FAULT_KINDS = ["crash in the save after a failed one", "crash_before", "crash_after", "EIO", "ENOSPC (short write)", "EACCES", "two overlapping saves (schedule)", "configured file is a symlink", "powerloss: unsynced data kept/dropped/prefix/zerofill",
+FAULT_KINDS = ["NOMEM (MemoryError out of a file operation)", "crash in the save after a failed one", "crash_before", "crash_after", "EIO", "ENOSPC (short write)", "EACCES", "two overlapping saves (schedule)", "configured file is a symlink", "powerloss: unsynced data kept/dropped/prefix/zerofill",
                "powerloss: journal prefix"]
 REAL = ["mysensors.persistence (save_sensors, safe_load_sensors, both serialisers)", "mysensors.task.start_persistence", "pickle", "json",
         "mysensors handlers building the states"]
@@ -35,7 +35,7 @@ ASSUMPTIONS = ["ordered-metadata journaling file system: directory operations su
 REQUIRED_PROBES = ["crash_runs", "failed_op_runs", "loaded_old", "loaded_new"]
 
 PRIORS = ["none", "good", "good+bak", "good+tmp", "good+bak+tmp"]
-KINDS = ["crash_before", "crash_after", "EIO", "ENOSPC", "EACCES", "ETIMEDOUT"]
+KINDS = ["crash_before", "crash_after", "EIO", "ENOSPC", "EACCES", "ETIMEDOUT", "NOMEM"]
 RESOLUTIONS = ["strict", "power-kept", "power-dropped", "power-prefix", "power-zerofill"]
 
 
@@ -267,7 +267,7 @@ def run(case):
             opname = oplog[n][1]
             occurrence = sum(1 for o in oplog[: n + 1] if o[1] == opname)
             kind = cfg["kind"]
-            if kind in ("EIO", "ENOSPC", "EACCES", "ETIMEDOUT") and opname not in simfs.FAULT_OPS:
+            if kind in ("EIO", "ENOSPC", "EACCES", "ETIMEDOUT", "NOMEM") and opname not in simfs.FAULT_OPS:
                 kind = "crash_before"
             fs.arm({n: kind})
             status, exc = dw.save(gw_a)
